@@ -29,6 +29,11 @@ SITES = {
     # attributes written without quotes in the source (a computed value is written in double quotes)
     'attr_unquoted_interp': ('<p t=${v} u=k>x</p>', '"', True),
     'tal_attr_unquoted_static': ('<p t=s u=k tal:attributes="t v">x</p>', '"', True),
+    # inside a slot filler (a function of its own with its own conversion routines)
+    'filler_text': ('<div><p metal:define-macro="m">M<b metal:define-slot="s">d</b></p>|<u metal:use-macro="macros[\'m\']">'
+                    '<i metal:fill-slot="s">a${v}b</i></u></div>', None, True),
+    'filler_attr': ('<div><p metal:define-macro="m">M<b metal:define-slot="s">d</b></p>|<u metal:use-macro="macros[\'m\']">'
+                    '<i metal:fill-slot="s" t="a${v}b">x</i></u></div>', '"', True),
     # a string: expression inside an interpolation
     'string_in_interp_text': ('<p>${string:a${v}b}</p>', None, True),
     'string_in_interp_attr': ('<p t="${string:a${v}b}">x</p>', '"', True),
